@@ -113,6 +113,14 @@ func StrN(t *rapid.T, label string, n int, o Opts) string {
 		return ""
 	}
 	kind := rapid.IntRange(0, 9).Draw(t, label+".charset")
+	if sub := rapid.IntRange(0, 19).Draw(t, label+".oddcharset"); sub == 0 {
+		// whitespace only (valid UTF-8, but empty once trimmed or split)
+		return string(fillTo([]byte(rapid.SampledFrom([]string{" ", "\t", "  ", " \t", "\n"}).Draw(t, label+".ws")), n))
+	} else if sub == 1 && !o.SpecValid {
+		// UTF-8 continuation bytes only: no rune boundary anywhere
+		pat := rapid.SliceOfN(rapid.ByteRange(0x80, 0xbf), 1, 3).Draw(t, label+".cont")
+		return string(fillTo(pat, n))
+	}
 	switch {
 	case kind < 7: // ascii
 		m := n
@@ -156,6 +164,7 @@ func StrN(t *rapid.T, label string, n int, o Opts) string {
 var topicDictionary = []string{
 	"$share/grp", "$share/grp/", "$share/grp/a/b", "$share//a", "$share", "$share/", "$share/g+/a", "$share/grp/#",
 	"$SYS/#", "$SYS/broker/load", "#", "+", "a/+/b", "/", "//", "a/", "/a", "$", "+/+", "a/#", "a/b/c", "sensors/+/temp",
+	"clients/%u/gone", "%c/status", "%u", "100%users", "$shares/quotes/#", "${user}/x", "{clientid}/will",
 }
 var topicTokens = []string{"$share", "$SYS", "/", "/", "+", "#", "a", "b", "grp", "$", "temp"}
 
@@ -228,7 +237,11 @@ func SubID(t *rapid.T, label string) uint32 {
 	return rapid.Uint32Range(1, 268435455).Draw(t, label)
 }
 
-var knownReasonCodes = []uint8{0x00, 0x01, 0x02, 0x04, 0x10, 0x11, 0x18, 0x19, 0x80, 0x81, 0x82, 0x83, 0x87, 0x8f, 0x91, 0x92, 0x97, 0x9b, 0xa2}
+// every reason code MQTT v5.0 defines (spec 2.4, table 2-6)
+var knownReasonCodes = []uint8{0x00, 0x01, 0x02, 0x04, 0x10, 0x11, 0x18, 0x19,
+	0x80, 0x81, 0x82, 0x83, 0x84, 0x85, 0x86, 0x87, 0x88, 0x89, 0x8a, 0x8b, 0x8c, 0x8d, 0x8e, 0x8f,
+	0x90, 0x91, 0x92, 0x93, 0x94, 0x95, 0x96, 0x97, 0x98, 0x99, 0x9a, 0x9b, 0x9c, 0x9d, 0x9e, 0x9f,
+	0xa0, 0xa1, 0xa2}
 
 func ReasonCode(t *rapid.T, label string) uint8 {
 	k := rapid.IntRange(0, 9).Draw(t, label+".k")
@@ -429,6 +442,9 @@ func Packet(t *rapid.T, typ uint8, o Opts) model.Packet {
 		}
 		if present(t, "serverref") {
 			m.ServerReference = Str(t, "serverref", o)
+			if m.ServerReference != "" && rapid.Bool().Draw(t, "redirectcode") {
+				m.ReasonCode = rapid.SampledFrom([]uint8{0x9c, 0x9d}).Draw(t, "redirect")
+			}
 		}
 		if present(t, "authmethod") {
 			m.AuthMethod = Str(t, "authmethod", o)
@@ -597,5 +613,8 @@ func DisconnectProps(t *rapid.T, m *model.Packet, o Opts) {
 	}
 	if present(t, "d.serverref") {
 		m.ServerReference = Str(t, "d.serverref", o)
+		if m.ServerReference != "" && rapid.Bool().Draw(t, "d.redirectcode") {
+			m.ReasonCode = rapid.SampledFrom([]uint8{0x9c, 0x9d}).Draw(t, "d.redirect")
+		}
 	}
 }
